@@ -83,6 +83,16 @@ class LockDir:
 '''
 
 
+def _mismatch_env(g, tests, param):
+    """Assumption "the compared values differ" for the equality tests (==, !=) among `tests` that mention `param`."""
+    env = {}
+    for t in tests:
+        for c in ast.walk(g.nodes[t].ast):
+            if isinstance(c, ast.Compare) and len(c.ops) == 1 and isinstance(c.ops[0], (ast.Eq, ast.NotEq)) and param in dotted_in(c):
+                env[norm(c)] = isinstance(c.ops[0], ast.NotEq)
+    return env
+
+
 def run(ctx):
     repo = ctx.repo
     cls = repo.cls(LD, "LockDir")
@@ -182,13 +192,13 @@ def run(ctx):
         if pre_check:
             peek = need(where, calling(g, attr="peek", recv="self"), "self.peek()")
             k1_before(ctx, "R4-peek-before-break", where, g, peek, ren, "the current holder is read before the lock directory is moved")
-            cut = {(t, b, l) for t in pre for (b, l) in g.succ[t] if l == "F"}
-            ok = bool(pre) and not (set(ren) & g.copy_without(cut).reachable_from_entry())
+            env_pre = _mismatch_env(g, pre, param)
+            ok = bool(pre) and bool(env_pre) and not (set(ren) & g.assume(env_pre).reachable_from_entry())
             ctx.check("R4-compare-before-break", where, ok, f"rename(held -> tmp) is reachable only when the current holder equals `{param}`", message="force_break moves the lock without first comparing the current holder with the examined one")
             ok2 = all(_branch_only_raises(g, t, "T") for t in pre)
             ctx.check("R4-compare-before-break", where, ok2, "a pre-rename mismatch raises")
-        cut = {(t, b, l) for t in post for (b, l) in g.succ[t] if l == "F"}
-        ok = bool(post) and not (set(dels) & g.copy_without(cut).reachable_from_entry())
+        env_post = _mismatch_env(g, post, param)
+        ok = bool(post) and bool(env_post) and not (set(dels) & g.assume(env_post).reachable_from_entry())
         ctx.check("R4-recheck-after-rename", where, ok, f"every delete is guarded by a comparison of the moved lock's info with `{param}` made after the rename", message=f"{meth} deletes the moved lock directory without re-checking whose lock it moved")
         k1_before(ctx, "R4-delete-after-rename", where, g, ren, dels, "deletes happen only after the rename to the tmp name")
         # R4b: a raise after the rename must be preceded by a rename back
